@@ -10,6 +10,7 @@
    lists : `L1.2.3;L;L4`        progs : threads `;`-separated, ops `,`-separated:
            g<l>.<i> get   f<l>.<i> ffi get   p<l>.<v> push   c<a>.<b> concat   h<l>.<v> contains
            s<l>.<i>.<j> swap   n<l> len   k<l> clone   d<l> drop   e<a>.<b> ==
+           x<l>.<v> index   y<l> is_empty   t<l> to_vec
    sched : thread ids as digits
    obs   : `<steps>;<end>;<results>;<lists>`
            steps   `,`-separated `<tid><events>~<blocked tids before the step>`,
@@ -42,6 +43,9 @@ def parseOp (tok : String) : Option Op :=
   | 'k', some [l] => some (.clone l)
   | 'd', some [l] => some (.drop l)
   | 'e', some [a, b] => some (.eq a b)
+  | 'x', some [l, v] => some (.index l v)
+  | 'y', some [l] => some (.isEmpty l)
+  | 't', some [l] => some (.toVec l)
   | _, _ => none
 
 def parseProgs (s : String) : Option (List (List Op)) :=
